@@ -194,6 +194,35 @@ pub fn start_line_for(entry: Entry) -> &'static [u8] {
     }
 }
 
+/// Model transitions (control id of the source state, byte) reachable from the tree's root with
+/// the tree's alphabet at ANY depth: the denominator for the coverage the bounded tree achieved.
+pub fn reachable_pairs(spec: &TreeSpec, acc: &mut std::collections::HashSet<(usize, u8)>) {
+    use std::collections::{HashSet, VecDeque};
+    let mut m = Model::for_entry(spec.lane.entry, spec.lane.cfg, spec.lane.cap);
+    m.feed(&spec.ctx);
+    let mut seen: HashSet<String> = HashSet::new();
+    let mut q = VecDeque::new();
+    seen.insert(m.abstract_string());
+    q.push_back(m);
+    while let Some(m) = q.pop_front() {
+        if m.status() != St::Partial {
+            continue;
+        }
+        for s in &spec.alphabet {
+            let mut m2 = m;
+            for &b in s.iter() {
+                if m2.status() == St::Partial {
+                    acc.insert((m2.control_id(), b));
+                }
+                m2.step(b);
+            }
+            if seen.insert(m2.abstract_string()) {
+                q.push_back(m2);
+            }
+        }
+    }
+}
+
 struct Walker<'a> {
     ck: &'a mut Checker,
     spec: &'a TreeSpec,
@@ -270,7 +299,12 @@ impl Walker<'_> {
             }
             self.buf.extend_from_slice(s);
             let mut m2 = m;
-            m2.feed(s);
+            for &b in s.iter() {
+                if m2.status() == St::Partial {
+                    self.ck.stats.mark_pair(m2.control_id(), b);
+                }
+                m2.step(b);
+            }
             self.ck.stats.edges += 1;
             self.visit(m2, Some((o, len)), nd, ne);
             self.buf.truncate(len);
